@@ -26,6 +26,8 @@ func Verif_H12Wake() {
 	// enter the waiting path deterministically: a known (non-zero) flush rate and no burst allowance
 	s.flushRate = 1
 	s.burstRate = 0
+	vrt.Quiesce()
+	vrt.SchedBegin()
 	s.Start() // background flusher: ticker + flushNow
 
 	// harness threads signal completion by closing a channel (visible operations that
@@ -52,6 +54,7 @@ func Verif_H12Wake() {
 	for _, d := range done {
 		<-d // every writer was released
 	}
+	vrt.SchedEnd()
 	vrt.Assert(s.Close() == nil, "close-no-error")
 	vrt.Cover("h12-end")
 }
